@@ -349,6 +349,8 @@ def model_self_check(ctx, prob):
 def edge_problems(rng):
     out = []
     base = su.gen_problem(rng, mode='menu')
+    while len(base.pairs) < 3 or base.parent_list is not None:
+        base = su.gen_problem(rng, mode='menu')
     j = base.to_json()
 
     def variant(label, **kw):
@@ -418,7 +420,7 @@ def run(ctx):
             ctx.count('corpus')
             run_detail(ctx, json.loads(f.read_text()))
     thorough = (ctx.tier == 'thorough')
-    n_problems = 330 if thorough else 44
+    n_problems = 330 if thorough else 70
     n_edge_rounds = 6 if thorough else 1
     for k in range(n_problems):
         prob = su.gen_problem(rng)
